@@ -6,10 +6,13 @@ import (
 	"encoding/base64"
 	"encoding/json"
 	"fmt"
+	"io"
 	"math"
 	"math/rand"
 	"os"
 	"runtime"
+	"sort"
+	"strings"
 	"sync"
 
 	saml2 "github.com/russellhaering/gosaml2"
@@ -108,7 +111,80 @@ func inflateDoc(entry string, good bool) []byte {
 	return doc
 }
 
-var levelOf = map[string]int{"deflate1": 1, "deflate6": 6, "deflate9": 9}
+var levelOf = map[string]int{"deflate1": 1, "deflate6": 6, "deflate9": 9, "stored": 0, "huffman": flate.HuffmanOnly}
+
+// leadStreams returns valid DEFLATE streams of doc, one per distinct first octet that could be found:
+// every compression level crossed with a flush after each of the first several hundred octets (the
+// first block's header -- final bit, block type, and for dynamic blocks the literal-code count -- is
+// what the first octet consists of), plus an empty stored block in front whose padding bits (ignored by
+// RFC 1951) are set freely. Code that sniffs the leading octets of its input meets all of them.
+func leadStreams(doc []byte) [][]byte {
+	byLead := map[byte][]byte{}
+	var buf bytes.Buffer
+	var plainStream []byte
+	for _, lvl := range []int{flate.HuffmanOnly, flate.DefaultCompression, 0, 1, 2, 3, 4, 5, 6, 7, 8, 9} {
+		fw, _ := flate.NewWriter(&buf, lvl)
+		max := 700
+		if max > len(doc)-1 {
+			max = len(doc) - 1
+		}
+		for cut := 0; cut <= max; cut++ {
+			buf.Reset()
+			fw.Reset(&buf)
+			if cut > 0 {
+				fw.Write(doc[:cut])
+				fw.Flush()
+			}
+			fw.Write(doc[cut:])
+			fw.Close()
+			st := buf.Bytes()
+			if plainStream == nil && cut == 0 && lvl == 6 {
+				plainStream = append([]byte{}, st...)
+			}
+			if _, ok := byLead[st[0]]; !ok {
+				byLead[st[0]] = append([]byte{}, st...)
+			}
+		}
+	}
+	for pad := 0; pad < 32; pad++ {
+		lead := byte(pad << 3) // BFINAL=0, BTYPE=00 (stored), five padding bits
+		if _, ok := byLead[lead]; !ok {
+			byLead[lead] = append([]byte{lead, 0, 0, 0xff, 0xff}, plainStream...)
+		}
+	}
+	keys := make([]int, 0, len(byLead))
+	for k := range byLead {
+		keys = append(keys, int(k))
+	}
+	sort.Ints(keys)
+	out := make([][]byte, 0, len(keys))
+	for _, k := range keys {
+		out = append(out, byLead[byte(k)])
+	}
+	return out
+}
+
+var (
+	leadMu    sync.Mutex
+	leadCache = map[string][][]byte{}
+)
+
+func leadStreamsFor(key string, doc []byte) [][]byte {
+	leadMu.Lock()
+	defer leadMu.Unlock()
+	if l, ok := leadCache[key]; ok {
+		return l
+	}
+	l := leadStreams(doc)
+	for _, st := range l { // the generator's own sanity: every stream inflates to doc
+		got, err := io.ReadAll(flate.NewReader(bytes.NewReader(st)))
+		if err != nil || !bytes.Equal(got, doc) {
+			orch.Fatal("inflate: generated stream with lead octet %#x does not inflate to the document: %v", st[0], err)
+		}
+	}
+	leadCache[key] = l
+	return l
+}
 
 // present builds the encoded input: doc padded with trailing whitespace to total octets.
 func present(entry string, good bool, total int, pres string) string {
@@ -186,7 +262,23 @@ func presentInner(good bool, total int, pres string) string {
 		writePadded(fw)
 		fw.Close()
 	}
-	ee, err := b.EncryptedAssertion(plain.Bytes(), idp.EncOpts{DataAlg: idp.EncAES128GCM, KeyTransport: idp.KtOAEP, Pub: &idp.RSAKey("sp").PublicKey})
+	return innerResponse(plain.Bytes())
+}
+
+// innerDoc is the signed assertion that presentInner wraps (unpadded).
+func innerDoc(good bool) []byte {
+	w := world.Get()
+	b := idp.NewBuilder(idp.Layout{Prefix: 0}, 9)
+	spec := world.Content("GA1")
+	if !good {
+		spec.Subject.Conf.Data.Recipient = idp.S("https://evil.example/acs")
+	}
+	return idp.Plain(ownSigned(b, w, spec, true))
+}
+
+func innerResponse(plain []byte) string {
+	b := idp.NewBuilder(idp.Layout{Prefix: 0}, 9)
+	ee, err := b.EncryptedAssertion(plain, idp.EncOpts{DataAlg: idp.EncAES128GCM, KeyTransport: idp.KtOAEP, Pub: &idp.RSAKey("sp").PublicKey})
 	if err != nil {
 		orch.Fatal("inflate: encrypt: %v", err)
 	}
@@ -299,14 +391,17 @@ func (Inflate) Run(c *orch.Case) *orch.Outcome {
 	if os.Getenv("VERIF_TIER") != "thorough" && total > 100<<20 {
 		total = 100 << 20
 	}
+	sp := world.Get().NewSP()
+	sp.MaximumDecompressedBodySize = map[string]int64{"0": 0, "1": 1, "2k": 2048, "64k": 65536, "maxint": math.MaxInt64}[cfg.Limit]
+	if in.Pres == "lead" {
+		return runLead(sp, &in, &cfg, eff)
+	}
 	var enc string
 	if in.Entry == "validateEncInner" {
 		enc = presentInner(in.Good, total, in.Pres)
 	} else {
 		enc = present(in.Entry, in.Good, total, in.Pres)
 	}
-	sp := world.Get().NewSP()
-	sp.MaximumDecompressedBodySize = map[string]int64{"0": 0, "1": 1, "2k": 2048, "64k": 65536, "maxint": math.MaxInt64}[cfg.Limit]
 
 	o := &iObs{Size: total, InputKiB: len(enc) >> 10}
 	runtime.GC()
@@ -328,6 +423,43 @@ func (Inflate) Run(c *orch.Case) *orch.Outcome {
 	}
 	return &orch.Outcome{Obs: o, Replay: map[string]any{"entry": in.Entry, "limit": cfg.Limit, "decompressed_size": total, "pres": in.Pres,
 		"note": "input = base document padded with trailing newlines to decompressed_size, presented raw or DEFLATE; regenerate with the same case"}}
+}
+
+// runLead presents the natural-size document in one DEFLATE stream per achievable first octet and reports
+// the first one that is not treated like the raw document (or the last one when all are).
+func runLead(sp *saml2.SAMLServiceProvider, in *iInput, cfg *iCfg, eff int) *orch.Outcome {
+	var doc []byte
+	if in.Entry == "validateEncInner" {
+		doc = innerDoc(in.Good)
+	} else {
+		doc = inflateDoc(in.Entry, in.Good)
+	}
+	wrap := func(stream []byte) string {
+		if in.Entry == "validateEncInner" {
+			return innerResponse(stream)
+		}
+		return base64.StdEncoding.EncodeToString(stream)
+	}
+	rres, rdata, rerrc := callEntry(sp, in.Entry, wrap(doc))
+	o := &iObs{Size: len(doc)}
+	var leads []string
+	var enc string
+	for _, st := range leadStreamsFor(fmt.Sprint(in.Entry, in.Good), doc) {
+		enc = wrap(st)
+		res, data, errc := callEntry(sp, in.Entry, enc)
+		o.Res, o.Err, o.InputKiB = res, errc, len(enc)>>10
+		o.Same = rres == res && rdata == data && rerrc == errc
+		leads = append(leads, fmt.Sprintf("%02x", st[0]))
+		want := "reject"
+		if in.Good && len(doc) <= eff {
+			want = "accept"
+		}
+		if (len(doc) <= eff && !o.Same) || res != want {
+			o.Err += fmt.Sprintf(" [stream with first octet %#x]", st[0])
+			break
+		}
+	}
+	return &orch.Outcome{Obs: o, Replay: map[string]any{"entry": in.Entry, "limit": cfg.Limit, "pres": in.Pres, "encoded": enc, "first_octets_tried": strings.Join(leads, " ")}}
 }
 
 func (Inflate) Corrupt(c *orch.Case, o *orch.Outcome) (any, string, bool) {
